@@ -50,11 +50,13 @@ def apply_row(spec, pmap, row):
                 idx = ed[2] if len(ed) > 2 else 0
                 k = 0
                 for e in s["edges"]:
-                    if e["s"] == src and e["t"] == tgt:
+                    if e["s"] == src and e["t"] == tgt and not e.get("scope"):
                         if k == idx:
                             for v in m["vars"]:
                                 if v == "weight":
                                     e["w"] = val
+                                elif v == "delay":
+                                    e["d"] = val
                         k += 1
     used = {nt for _, nt in s["nodes"]}
     s["ntypes"] = {k: v for k, v in s["ntypes"].items() if k in used}
@@ -66,7 +68,7 @@ def sweep_case(draw, ctx=None):
     vec_ = draw(st.booleans())
     spec = draw(gen.model_spec({"leak": True, "max_types": 2, "max_ops": 2, "max_nodes": 4, "min_nodes": 2,
                                 "max_edges": 5, "min_edges": 1, "edge_reuse": False, "expr_depth": 2, "max_alg": 1,
-                                "max_in": 2, "depths": [0], "collision": False,
+                                "max_in": 2, "depths": [0, 0, 1], "collision": False,
                                 "funcs": ["sin", "cos", "tanh", "sigmoid", "arctan"], "pow": False,
                                 "overrides": draw(st.sampled_from([True, True, False]))}))
     # (with overrides off all nodes of a type are built from ONE NodeTemplate object and a key may address a subset)
@@ -85,8 +87,9 @@ def sweep_case(draw, ctx=None):
     taken_pairs, taken_vars = set(), set()
     for ki in range(n_keys):
         key = f"G{ki}"
-        kind = draw(st.sampled_from(["node", "node", "edge"])) if spec["edges"] else "node"
-        if kind == "edge" and not (sorted({(e["s"], e["t"]) for e in spec["edges"]} - taken_pairs)):
+        top_edges = [e for e in spec["edges"] if not e.get("scope")]
+        kind = draw(st.sampled_from(["node", "node", "edge"])) if top_edges else "node"
+        if kind == "edge" and not (sorted({(e["s"], e["t"]) for e in top_edges} - taken_pairs)):
             kind = "node"
         if kind == "node":
             # one operator/variable (const or state), on one or several nodes that have it
@@ -108,12 +111,12 @@ def sweep_case(draw, ctx=None):
             pmap[key] = {"vars": vars_, "nodes": sorted(nodes)}
             base = 0.6 if kd == "const" else -0.4
         else:
-            pairs = sorted({(e["s"], e["t"]) for e in spec["edges"]} - taken_pairs)
+            pairs = sorted({(e["s"], e["t"]) for e in top_edges} - taken_pairs)
             chosen = draw(st.lists(st.sampled_from(pairs), min_size=1, max_size=min(2, len(pairs)), unique=True))
             taken_pairs |= set(chosen)
             edges = []
             for s_, t_ in chosen:
-                cnt = sum(1 for e in spec["edges"] if e["s"] == s_ and e["t"] == t_)
+                cnt = sum(1 for e in top_edges if e["s"] == s_ and e["t"] == t_)
                 if cnt > 1 or draw(st.booleans()):
                     edges.append([s_, t_, draw(st.integers(0, cnt - 1))])
                 else:
@@ -124,17 +127,28 @@ def sweep_case(draw, ctx=None):
             base = 0.5
         n_vals = draw(st.integers(2, 3))
         grid[key] = [round(base + 0.35 * j + 0.05 * ki, 3) for j in range(n_vals)]
+    solver = draw(st.sampled_from(["euler", "euler", "scipy"]))
+    ekeys = [k for k, m in pmap.items() if "edges" in m]
+    if ekeys and solver == "euler" and len(grid) < 2 and draw(st.integers(0, 1)) == 0:
+        # a second key on the SAME edge, for another attribute: its (discrete) delay, three to five steps
+        e0 = pmap[ekeys[0]]["edges"][0]
+        if not any(e.get("d") is not None for e in spec["edges"]):
+            pmap["GD"] = {"vars": ["delay"], "edges": [list(e0)]}
+            grid["GD"] = [0.03, 0.05, 0.04][:len(grid[ekeys[0]])]
     permute = draw(st.booleans()) if len(grid) == 2 else False
     if not permute and len(grid) == 2:
         m = min(len(v) for v in grid.values())
         grid = {k: v[:m] for k, v in grid.items()}
-    solver = draw(st.sampled_from(["euler", "euler", "scipy"]))
     inp = None
     in_vars = [k for k, kd in rm.kind.items() if kd == "input"]
     steps = draw(st.integers(8, 20))
     if in_vars and draw(st.integers(0, 2)) == 0:
         fl = st.floats(-1, 1, allow_nan=False).map(lambda v: round(v, 3))
-        inp = {"target": draw(st.sampled_from(in_vars)), "values": draw(st.lists(fl, min_size=steps, max_size=steps))}
+        tgt = draw(st.sampled_from(in_vars))
+        comps = tgt.split("/")
+        if len(comps) > 3 and draw(st.booleans()):
+            tgt = "/".join(["all"] + comps[1:])       # the node of that name in every sub-circuit
+        inp = {"target": tgt, "values": draw(st.lists(fl, min_size=steps, max_size=steps))}
     return {"spec": spec, "pmap": pmap, "grid": grid, "permute": permute, "input": inp,
             "frame": draw(st.sampled_from([0, 0, 1, 2, 3])),
             "_repaired": repaired, "cfg": {"solver": solver, "dt": 0.01, "steps": steps, "vectorize": vec_}}
@@ -146,7 +160,8 @@ class SweepArm(Arm):
     min_per_shard = 12
     case_timeout = 120
     required_labels = ("node_key", "edge_key", "permute", "input", "scipy", "euler", "edge_idx", "several_nodes",
-                       "subset_of_nodes_sharing_a_template", "dataframe_grid_permuted_index")
+                       "subset_of_nodes_sharing_a_template", "dataframe_grid_permuted_index", "two_keys_on_one_edge",
+                       "input_wildcard", "hierarchical")
 
     def strategy(self, ctx):
         return sweep_case(ctx)
@@ -174,10 +189,14 @@ class SweepArm(Arm):
                     lab.append("several_vars")
             else:
                 lab.append("edge_key")
+                if "delay" in m["vars"]:
+                    lab.append("two_keys_on_one_edge")
                 if any(len(e) == 3 for e in m["edges"]):
                     lab.append("edge_idx")
         if case["permute"]:
             lab.append("permute")
+        if any("/" in p for p, _ in spec["nodes"]):
+            lab.append("hierarchical")
         nts_ = [nt for _, nt in spec["nodes"]]
         if any("nodes" in m and any(nts_.count(dict(spec["nodes"])[n]) > sum(1 for x in m["nodes"] if dict(spec["nodes"])[x] == dict(spec["nodes"])[n])
                                      for n in m["nodes"]) for m in pmap.values()):
@@ -186,7 +205,13 @@ class SweepArm(Arm):
             lab.append("input")
         res.labels = sorted(set(lab)) + ["repaired:" + r for r in case.get("_repaired", [])]
         inputs = {case["input"]["target"]: np.asarray(case["input"]["values"], dtype=float)} if case["input"] else None
-        ext = {case["input"]["target"]: np.asarray(case["input"]["values"], dtype=float)} if case["input"] else None
+        ext = None
+        if case["input"]:
+            from .c08 import expand_inputs
+            ext = expand_inputs(spec, rm, [{"target": case["input"]["target"], "values": case["input"]["values"]}])
+            if "all" in case["input"]["target"].split("/")[:-2]:
+                lab.append("input_wildcard")
+                res.labels = sorted(set(lab)) + ["repaired:" + r for r in case.get("_repaired", [])]
 
         def reference(s):
             r = RefModel(s)
